@@ -430,6 +430,9 @@ def mk_op(letter, rng, nt, bo, tail):
         bad = (2,) + t + (2,) if t else (2, 2)
         return dict(op='iterappend', items=[nd_spec(rand_array(rng, nt, bo, (1,) + t)),
                                             nd_spec(small_values(rng, bad, own))])
+    if letter == 'itraise':  # one good chunk, then the ITERABLE itself fails (with an exception of its own class)
+        return dict(op='iterappend', items=[nd_spec(rand_array(rng, nt, bo, (2,) + t)), dict(kind='raise'),
+                                            nd_spec(rand_array(rng, nt, bo, (1,) + t))])
     if letter == 'it0d':     # the failing chunk is the first one and is a 0-d array
         return dict(op='iterappend', items=[nd_spec(small_values(rng, (), own)),
                                             nd_spec(rand_array(rng, nt, bo, (1,) + t))])
@@ -492,7 +495,7 @@ def mk_op(letter, rng, nt, bo, tail):
     raise ValueError(letter)
 
 
-ALPHABET = ['a0', 'a1', 'a2l', 'asc', 'aod', 'asw', 'astr', 'amask', 'atail', 'a0d', 'abad', 'abad0', 'it2', 'it0', 'itl', 'itbad', 'it0d',
+ALPHABET = ['a0', 'a1', 'a2l', 'asc', 'aod', 'asw', 'astr', 'amask', 'atail', 'a0d', 'abad', 'abad0', 'it2', 'it0', 'itl', 'itbad', 'itraise', 'it0d',
             't-1', 't0', 't1', 'tbig', 't-big', 'tni', 'set', 'ro', 'mr', 'mrw', 'mbad', 'ms', 'mc']
 COMPACT = ['a1', 'aod', 'asw', 'amask', 'atail', 'a0d', 'abad', 'abad0', 'it2', 'it0', 'itbad', 't-1', 't0', 't1', 'tbig', 't-big', 'tni',
            'set', 'ro', 'mr', 'mbad']
